@@ -59,7 +59,7 @@ def run_chunker_check(prop, tier):
     traces = []
     total = 0
     procs = []
-    groups = [(a, w, b) for a in ("rollsum", "buzhash") for w in (1, 2, 3) for b in (1, 2)] + [("fixed", 1, 1)]
+    groups = [(a, w, b) for a in ("rollsum", "buzhash") for w in (1, 2, 3, 4) for b in (1, 2)] + [("fixed", 1, 1)]
     lmax = 6 if tier == "quick" else 8
     if prop == "C09":
         for (a, w, b) in groups:
